@@ -552,12 +552,18 @@ fn run_one_sys(id: &str, layout: &Layout, labels: &[Lbl], fault: usize, sleep: &
 // system-call level: one event per wake-up, a reset = the tablet switch going on and off within one wake-up. The result
 // has the shape of a direct walk - per event what was WRITTEN to the virtual keyboard after it was read, plus the state
 // and the repeat request of the shadow mapper that is given the same events - and is judged by the same MapperTrace.tla.
-pub fn walk_via_loop(layout: &Layout, history: &[Option<Event>], noise: u8) -> Vec<Value> {
+pub fn walk_via_loop(layout: &Layout, history: &[(Option<Event>, Vec<Event>)], noise: u8) -> Vec<Value> {
   let mut labels: Vec<Lbl> = vec![];
-  for h in history {
+  for (h, unseen) in history {
     match h {
       Some(e) => { labels.push(Lbl::ArrK(Some(e.clone()))); labels.push(Lbl::PollDev(true)); labels.push(Lbl::ReadK); labels.push(Lbl::ReadK); },
-      None => { labels.push(Lbl::ArrT(true)); labels.push(Lbl::ArrT(false)); labels.push(Lbl::PollDev(true)); labels.push(Lbl::ReadT); labels.push(Lbl::ReadT); labels.push(Lbl::ReadT); }
+      None if unseen.is_empty() => { labels.push(Lbl::ArrT(true)); labels.push(Lbl::ArrT(false)); labels.push(Lbl::PollDev(true)); labels.push(Lbl::ReadT); labels.push(Lbl::ReadT); labels.push(Lbl::ReadT); },
+      None => {
+        // the switch goes on, keys move while tablet mode is on (the loop reads and drops them), the switch goes off: separate wake-ups
+        labels.push(Lbl::ArrT(true)); labels.push(Lbl::PollDev(false)); labels.push(Lbl::ReadT); labels.push(Lbl::ReadT);
+        for e in unseen { labels.push(Lbl::ArrK(Some(e.clone()))); labels.push(Lbl::PollDev(true)); labels.push(Lbl::ReadK); labels.push(Lbl::ReadK); }
+        labels.push(Lbl::ArrT(false)); labels.push(Lbl::PollDev(false)); labels.push(Lbl::ReadT); labels.push(Lbl::ReadT);
+      }
     }
   }
   let mut d = new_drv(layout, &labels, 0, &[]);
@@ -575,6 +581,12 @@ pub fn walk_via_loop(layout: &Layout, history: &[Option<Event>], noise: u8) -> V
   let mut cur: Option<Value> = None;
   for rec in &sys.d.log {
     match (rec["c"].as_str().unwrap_or(""), rec["res"].as_str().unwrap_or("")) {
+      ("kbd", "one") if rec["st"].is_null() => {         // read while tablet mode is on: the mapper is not given it; part of the reset step
+        if let Some(c) = cur.as_mut() {
+          if c["e"]["unseen"].is_null() { c["e"]["unseen"] = json!([]); }
+          c["e"]["unseen"].as_array_mut().unwrap().push(rec["e"].clone());
+        }
+      },
       ("kbd", "one") => {
         if let Some(c) = cur.take() { out.push(c); }
         cur = Some(json!({"c": "step", "e": rec["e"], "ev": [], "rep": rec["ref"]["rep"], "st": rec["st"], "panic": ""}));
